@@ -321,6 +321,25 @@ theorem containerOK_getD (P : Profile) (h : ∀ c ∈ P.containers, containerOK 
     rw [this]
     rfl
 
+/-- padding keeps the typed shape of a File -/
+theorem FileShape.wire {c : Container} {f : FileSt} (P : Profile) (h : FileShape c f) : FileShape c (wireFile P c f) := by
+  refine ⟨?_, ?_, ?_, ?_⟩
+  · intro m hm
+    simp only [wireFile, Option.map_eq_some_iff] at hm
+    obtain ⟨m0, hm0, rfl⟩ := hm
+    rw [wire1_num]; exact h.creatorNum m0 hm0
+  · intro m hm
+    simp only [wireFile, Option.map_eq_some_iff] at hm
+    obtain ⟨m0, hm0, rfl⟩ := hm
+    rw [wire1_num]; exact h.tscorrNum m0 hm0
+  · simp only [wireFile, List.length_map, List.length_zip, h.len, Nat.min_self]
+  · intro z hz m hm
+    simp only [wireFile] at hz
+    rw [zip_map_zip] at hz
+    simp only [List.mem_map] at hz
+    obtain ⟨z0, hz0, rfl⟩ := hz
+    exact wireSlot_nums P z0.1.many z0.2 z0.1.msg (h.nums z0 hz0) m hm
+
 /-- **`Decode (Encode f)` computed.** For every File of the typed API's shape in the round-trip
     domain: decoding what `Encode` wrote succeeds and returns a File with the same file_id,
     file_creator and timestamp_correlation, the same container, and in every slot the File's own
@@ -334,14 +353,16 @@ theorem decode_encode_content (P : Profile) (hwf : ProfileWF P = true) (hcont : 
     ∃ (i : Nat) (F' : FileSt), f.cidx = some i ∧
       (decodeSpec P o .full g (bs ++ tail) stop).1.success ∧
       (decodeSpec P o .full g (bs ++ tail) stop).1.st.file = some F' ∧
-      F'.fileId = f.fileId ∧ F'.creator = f.creator ∧ F'.tscorr = f.tscorr ∧ F'.cidx = f.cidx ∧
-      F'.fieldDescs = [] ∧ F'.devIds = [] ∧
-      F'.slots = (expandSlots P g (((P.containers.getD i default).slots.zip f.slots).map slotMsgs)).1 ∧
+      F'.fileId = wire1 P f.fileId ∧ F'.creator = f.creator.map (wire1 P) ∧ F'.tscorr = f.tscorr.map (wire1 P) ∧
+      F'.cidx = f.cidx ∧ F'.fieldDescs = [] ∧ F'.devIds = [] ∧
+      F'.slots = (expandSlots P g (((P.containers.getD i default).slots.zip
+        (wireFile P (P.containers.getD i default) f).slots).map slotMsgs)).1 ∧
       (decodeSpec P o .full g (bs ++ tail) stop).1.st.glob =
-        (expandSlots P g (((P.containers.getD i default).slots.zip f.slots).map slotMsgs)).2 := by
+        (expandSlots P g (((P.containers.getD i default).slots.zip
+          (wireFile P (P.containers.getD i default) f).slots).map slotMsgs)).2 := by
   obtain ⟨i, H, C, F, G, F', hci, hadd, hsucc, hglob, hfile, hsame⟩ :=
     decode_encode_file P hwf arch f f' bs h hdom hsmall o g tail stop
-  obtain ⟨F2, hadd2, r1, r2, r3, r4, r5, r6, r7, r8⟩ := replay_file P i (containerOK_getD P hcont i) f (hsh i hci) H g
+  obtain ⟨F2, hadd2, r1, r2, r3, r4, r5, r6, r7, r8⟩ := replay_file P i (containerOK_getD P hcont i) (wireFile P (P.containers.getD i default) f) ((hsh i hci).wire P) H g
   rw [hadd] at hadd2
   injection hadd2 with hadd2
   injection hadd2 with e1 e2
@@ -366,14 +387,19 @@ theorem decode_encode_identity (P : Profile) (hwf : ProfileWF P = true) (hcont :
     ∃ F' : FileSt,
       (decodeSpec P o .full g (bs ++ tail) stop).1.success ∧
       (decodeSpec P o .full g (bs ++ tail) stop).1.st.file = some F' ∧
-      F'.fileId = f.fileId ∧ F'.creator = f.creator ∧ F'.tscorr = f.tscorr ∧ F'.cidx = f.cidx ∧
-      F'.fieldDescs = [] ∧ F'.devIds = [] ∧ F'.slots = f.slots ∧
+      F'.fileId = wire1 P f.fileId ∧ F'.creator = f.creator.map (wire1 P) ∧ F'.tscorr = f.tscorr.map (wire1 P) ∧
+      F'.cidx = f.cidx ∧ F'.fieldDescs = [] ∧ F'.devIds = [] ∧
+      (∀ i, f.cidx = some i → F'.slots = (wireFile P (P.containers.getD i default) f).slots) ∧
       (decodeSpec P o .full g (bs ++ tail) stop).1.st.glob = g := by
   obtain ⟨i, F', hci, hsucc, hfile, r1, r2, r3, r4, r5, r6, r7, r8⟩ :=
     decode_encode_content P hwf hcont arch f f' bs h hdom hsmall hsh o g tail stop
-  have hmap : ((P.containers.getD i default).slots.zip f.slots).map slotMsgs = f.slots := by
-    have h1 : ((P.containers.getD i default).slots.zip f.slots).map slotMsgs =
-        ((P.containers.getD i default).slots.zip f.slots).map (·.2) := by
+  have hshw := (hsh i hci).wire P
+  have hslots : (wireFile P (P.containers.getD i default) f).slots =
+      ((P.containers.getD i default).slots.zip f.slots).map fun z => wireSlot P z.1.many z.2 := rfl
+  have hmap : ((P.containers.getD i default).slots.zip (wireFile P (P.containers.getD i default) f).slots).map slotMsgs =
+      (wireFile P (P.containers.getD i default) f).slots := by
+    have h1 : ((P.containers.getD i default).slots.zip (wireFile P (P.containers.getD i default) f).slots).map slotMsgs =
+        ((P.containers.getD i default).slots.zip (wireFile P (P.containers.getD i default) f).slots).map (·.2) := by
       apply List.map_congr_left
       intro z hz
       unfold slotMsgs
@@ -381,10 +407,35 @@ theorem decode_encode_identity (P : Profile) (hwf : ProfileWF P = true) (hcont :
       | true => rfl
       | false =>
         simp only [Bool.false_eq_true, ↓reduceIte]
-        exact List.take_of_length_le (hone i hci z hz hm)
+        apply List.take_of_length_le
+        rw [hslots, zip_map_zip] at hz
+        simp only [List.mem_map] at hz
+        obtain ⟨z0, hz0, rfl⟩ := hz
+        simp only at hm ⊢
+        rw [wireSlot_length]
+        exact hone i hci z0 hz0 hm
     rw [h1]
-    exact List.map_snd_zip (by rw [(hsh i hci).len]; exact Nat.le_refl _)
-  rw [hmap, expandSlots_id P g f.slots hnx] at r7 r8
-  exact ⟨F', hsucc, hfile, r1, r2, r3, r4, r5, r6, r7, r8⟩
+    exact List.map_snd_zip (by rw [hshw.len]; exact Nat.le_refl _)
+  have hnxw : ∀ ms ∈ (wireFile P (P.containers.getD i default) f).slots, ∀ m ∈ ms, expandSet.contains m.num = false := by
+    intro ms hms m hm
+    rw [hslots] at hms
+    simp only [List.mem_map] at hms
+    obtain ⟨z0, hz0, rfl⟩ := hms
+    have hz2 : z0.2 ∈ f.slots := (List.of_mem_zip hz0).2
+    have hn := wireSlot_nums P z0.1.many z0.2 z0.1.msg ((hsh i hci).nums z0 hz0) m hm
+    cases hz : z0.2 with
+    | nil => rw [hz] at hm; simp [wireSlot] at hm
+    | cons m1 rest =>
+      have hm1 : m1 ∈ z0.2 := by rw [hz]; exact List.mem_cons_self ..
+      have := hnx z0.2 hz2 m1 hm1
+      rw [(hsh i hci).nums z0 hz0 m1 hm1] at this
+      rw [hn]; exact this
+  rw [hmap, expandSlots_id P g _ hnxw] at r7 r8
+  refine ⟨F', hsucc, hfile, r1, r2, r3, r4, r5, r6, ?_, r8⟩
+  intro j hj
+  rw [hci] at hj
+  injection hj with hj
+  subst hj
+  exact r7
 
 end Fit
